@@ -29,17 +29,17 @@ def lift_x(x):
 
 
 def sign(sk, m, aux):
-    """BIP340 default signing; None when it fails (d' out of range or k' == 0)."""
+    """BIP340 default signing; b"" when it fails (d' out of range or k' == 0)."""
     d0 = int.from_bytes(sk, "big")
     if d0 == 0 or d0 >= N:
-        return None
+        return b""
     pt = ec.smul(d0, ec.G)
     d = d0 if pt[1] % 2 == 0 else N - d0
     t = (d ^ int.from_bytes(tagged(b"BIP0340/aux", aux), "big")).to_bytes(32, "big")
     rand = tagged(b"BIP0340/nonce", t + pt[0].to_bytes(32, "big") + m)
     k0 = int.from_bytes(rand, "big") % N
     if k0 == 0:
-        return None
+        return b""
     r = ec.smul(k0, ec.G)
     k = k0 if r[1] % 2 == 0 else N - k0
     e = int.from_bytes(tagged(b"BIP0340/challenge", r[0].to_bytes(32, "big") + pt[0].to_bytes(32, "big") + m), "big") % N
